@@ -18,6 +18,17 @@ class CallMixin:
             nm = e.func.id
             if nm == "old" and st.spec:
                 return self.spec_old(e, st)
+            if nm == "entry" and st.spec:
+                return self.spec_old(e, st, which="__loop_entry__")
+            if nm == "prev" and st.spec:
+                return self.spec_old(e, st, which="__iter_start__")
+            if nm == "allocated" and st.spec:
+                v = self.eval(e.args[0], st)
+                return Val(BOOL, z3.And(v.t > 0, v.t < st.alloc))
+            if nm == "fresh" and st.spec:
+                v = self.eval(e.args[0], st)
+                base = st.old.alloc if st.old is not None else st.alloc
+                return Val(BOOL, v.t >= base)
             if nm in ("all", "any") and len(e.args) == 1 and isinstance(e.args[0], (ast.GeneratorExp, ast.ListComp)):
                 return self.quantifier(nm, e.args[0], st)
             if nm == "cast" or (nm == "typing" and False):
@@ -188,7 +199,7 @@ class CallMixin:
             o = outs[0]
             st.pc = o.pc
             st.heap = o.heap
-            st.alloc = o.alloc
+            st.alloc_base, st.alloc_off = o.alloc_base, o.alloc_off
             st.ghost.update({k: v for k, v in o.ghost.items() if k.startswith("g:")})
             st.ret_tmp = o.ret
             return
@@ -210,11 +221,14 @@ class CallMixin:
                     cur = z3.If(c, v, cur)
             heap[k] = cur
         st.heap = heap
-        al = outs[-1].alloc
-        for c, o in zip(reversed(conds[:-1]), reversed(outs[:-1])):
-            if o.alloc is not al:
+        if all(o.alloc_base is outs[0].alloc_base or o.alloc_base.eq(outs[0].alloc_base) for o in outs):
+            # same epoch on every path: over-allocate to the largest offset (harmless)
+            st.alloc_base, st.alloc_off = outs[0].alloc_base, max(o.alloc_off for o in outs)
+        else:
+            al = outs[-1].alloc
+            for c, o in zip(reversed(conds[:-1]), reversed(outs[:-1])):
                 al = z3.If(c, o.alloc, al)
-        st.alloc = al
+            st.alloc = al
         ret = outs[-1].ret
         for c, o in zip(reversed(conds[:-1]), reversed(outs[:-1])):
             ret = self.merge_vals(c, o.ret, ret)
@@ -262,7 +276,14 @@ class CallMixin:
                 st.write(f"{ci.qualname}.{f}!has", B, ref, z3.BoolVal(False))
         init = self.find_member(ci, "__init__", "method")
         if init is not None:
-            self.call_user(init, [obj] + list(args), kwargs, st, node)
+            saved = st.ghost.get("__constructing__", ())
+            st.ghost = dict(st.ghost)
+            st.ghost["__constructing__"] = tuple(saved) + (ref,)
+            try:
+                self.call_user(init, [obj] + list(args), kwargs, st, node)
+            finally:
+                st.ghost = dict(st.ghost)
+                st.ghost["__constructing__"] = saved
         return obj
 
     def construct_ext(self, ci, args, kwargs, st, node):
@@ -307,6 +328,14 @@ class CallMixin:
             self.assume_ref_range(result, st)
         qenv = dict(penv)
         qenv["result"] = result
+        for gname, gty in c.get("ghost_returns", {}).items():
+            gv = Val(parse_type(gty), fresh("g_" + gname, sort_of(parse_type(gty))))
+            qenv[gname] = gv
+            st.env["g_" + gname] = gv
+            self.assume_ref_range(gv, st)
+        # fields of objects allocated by the callee
+        for wf in c.get("writes_fresh", []):
+            self.havoc_fresh_region(wf, pre.alloc, st)
         # exceptional exits
         for exc in c["raises"]:
             conds = c["exc_ensures"].get(exc)
@@ -330,6 +359,37 @@ class CallMixin:
             st.assume(self.spec_truth(e, qenv, st, old=pre))
         return result
 
+    def havoc_fresh_region(self, key, alloc0, st):
+        """The callee initialised field `key` of objects it allocated: values at refs >= alloc0 unknown,
+        all older objects keep their value (frame)."""
+        cls, f = key.rsplit(".", 1)
+        cls = TYPE_ALIASES.get(cls, cls)
+        fty = self.field_type(cls, f.split("!")[0])
+        if f.startswith("map:"):
+            vty = parse_type(f[4:])
+            k2 = self._map_key(vty)
+            sort = z3.ArraySort(S, opt_sort(sort_of(vty)))
+        elif cls == "List":
+            k2 = "List." + f
+            sort = I if f == "len" else z3.ArraySort(I, I)
+        else:
+            if fty is None:
+                raise EngineError(f"writes_fresh {key}: unknown field")
+            k2 = f"{cls}.{f}"
+            sort = B if f.endswith("!has") else sort_of(fty)
+        arr = st.field(k2, sort)
+        new = fresh("wf_" + f, arr.sort())
+        r = fresh("r", I)
+        st.assume(z3.ForAll([r], z3.Implies(r < alloc0, z3.Select(new, r) == z3.Select(arr, r)),
+                            patterns=[z3.Select(new, r)]))
+        st.set_field_array(k2, new)
+        if self.write_refs is not None:
+            # reclassify the whole-array write just logged: it only touches objects allocated by the callee
+            for n_ in range(len(self.write_refs) - 1, -1, -1):
+                if self.write_refs[n_] == (k2, None):
+                    self.write_refs[n_] = (k2, "fresh")
+                    break
+
     def assume_ref_range(self, v, st):
         ty = v.ty
         if is_reflike(ty):
@@ -343,17 +403,13 @@ class CallMixin:
     def havoc_modifies(self, mods, env, st):
         for m in mods:
             if m == "alloc":
-                na = fresh("alloc", I)
-                st.assume(na >= st.alloc)
-                st.alloc = na
+                st.new_epoch_at_least(st.alloc)
                 continue
             if m == "heap":
                 for k in list(st.heap.keys()) + list(self.init_heap.keys()):
                     arr = st.heap.get(k, self.init_heap.get(k))
                     st.set_field_array(k, fresh("hv_" + k, arr.sort()))
-                na = fresh("alloc", I)
-                st.assume(na >= st.alloc)
-                st.alloc = na
+                st.new_epoch_at_least(st.alloc)
                 continue
             node = ast.parse(m, mode="eval").body
             if isinstance(node, ast.Attribute) and isinstance(node.value, ast.Name) and node.value.id in env:
@@ -387,10 +443,11 @@ class CallMixin:
             raise EngineError(f"modifies pattern {m!r} not understood")
 
     # -- spec primitives -----------------------------------------------------------------------
-    def spec_old(self, e, st):
-        if st.old is None:
-            raise EngineError("old() without a pre-state")
-        o = st.old.copy()
+    def spec_old(self, e, st, which=None):
+        src = st.old if which is None else st.ghost.get(which)
+        if src is None:
+            raise EngineError("old()/entry() without a pre-state")
+        o = src.copy()
         o.spec = True
         o.guards = []
         o.frame = st.frame
@@ -408,7 +465,43 @@ class CallMixin:
             v = Val(v.ty, v.t, frozen=self.dict_map(v, o))
         return v
 
+    def quantifier_flat(self, kind, gen, st):
+        """all(P for i in range(..) for j in range(..)): one flat quantifier (better triggers than nesting)."""
+        s_env = st.env
+        st.env = dict(st.env)
+        qv = list(st.ghost.get("__qvars__", ()))
+        try:
+            vs, rngs, names = [], [], []
+            for g in gen.generators:
+                it = g.iter
+                ra = [self.eval(a, st) for a in it.args]
+                lo, hi = (mk_int(0), ra[0]) if len(ra) == 1 else (ra[0], ra[1])
+                i = fresh("q_" + g.target.id, I)
+                st.env[g.target.id] = Val(INT, i)
+                vs.append(i)
+                names.append(g.target.id)
+                rngs.append(z3.And(lo.t <= i, i < hi.t))
+                for cond in g.ifs:
+                    rngs.append(self.truth(self.eval(cond, st), st))
+            st.ghost = dict(st.ghost)
+            st.ghost["__qvars__"] = qv + names
+            body = self.truth(self.eval(gen.elt, st), st)
+            if kind == "all":
+                return Val(BOOL, z3.ForAll(vs, z3.Implies(z3.And(*rngs), body)))
+            return Val(BOOL, z3.Exists(vs, z3.And(*rngs, body)))
+        finally:
+            st.env = s_env
+            st.ghost = dict(st.ghost)
+            st.ghost["__qvars__"] = qv
+
+    def _is_sym_range(self, g, st):
+        it = g.iter
+        return (isinstance(it, ast.Call) and isinstance(it.func, ast.Name) and it.func.id == "range"
+                and isinstance(g.target, ast.Name) and 1 <= len(it.args) <= 2)
+
     def quantifier(self, kind, gen, st):
+        if len(gen.generators) > 1 and self.bounded is None and all(self._is_sym_range(g, st) for g in gen.generators):
+            return self.quantifier_flat(kind, gen, st)
         if len(gen.generators) != 1:
             # nested: all(P for i in A for j in B) == all(all(P for j in B) for i in A)
             inner = ast.GeneratorExp(elt=gen.elt, generators=gen.generators[1:])
@@ -445,6 +538,25 @@ class CallMixin:
                 if kind == "all":
                     return Val(BOOL, z3.ForAll([i], z3.Implies(rng, body)))
                 return Val(BOOL, z3.Exists([i], z3.And(rng, body)))
+            if isinstance(it, ast.Call) and isinstance(it.func, ast.Name) and it.func.id == "instants":
+                # every instant (integer microsecond) of the closed interval [a, b]
+                a_, b_ = [self.eval(x, st) for x in it.args]
+                t = fresh("q_t", I)
+                st.env[g.target.id] = Val(DT, t)
+                st.ghost = dict(st.ghost)
+                st.ghost["__qvars__"] = qv + [g.target.id]
+                rng = z3.And(a_.t <= t, t <= b_.t)
+                body = self._qbody(gen, g, st, kind)
+                # `t` occurs only under arithmetic, which gives e-matching nothing to trigger on: guard the
+                # body with the always-true marker tr(t) (axiom: forall t. tr(t)) and trigger on it
+                tr = z3.Function("tr_instant", I, B)
+                if not getattr(self, "_tr_axiom", False):
+                    self._tr_axiom = True
+                    tt = z3.Int("tt!tr")
+                    self.axioms.append(z3.ForAll([tt], tr(tt), patterns=[tr(tt)]))
+                if kind == "all":
+                    return Val(BOOL, z3.ForAll([t], z3.Implies(z3.And(tr(t), rng), body), patterns=[tr(t)]))
+                return Val(BOOL, z3.Exists([t], z3.And(rng, body)))
             coll = self.eval(it, st)
             if coll.ty.name == "List":
                 i = fresh("q_i", I)
